@@ -30,6 +30,14 @@ R = [
  ("C09f-imro-uniform-gain-fast-path-prefix-match", [(SG, "            if site and imro.count(f\" {ap} {lf}\") == n_sites:\n",
                                                       "            if site and imro.count(f\" {ap} {lf})\") + imro.count(f\" {ap} {lf} \") == n_sites:\n")],
   "regexes compiled once; NP1 conversion short-circuits when every IMRO entry carries the first entry's (ap, lf) gain pair, counted with patterns closed on both sides (3A entries end with ')', 3B entries go on with ' ')"),
+ ("C13f-templates-plain-median-shared-padding", [(WE, "        wfs_templates[i] = np.median(wfs[rec.first_index:rec.last_index + 1], axis=0)\n", "        wfs_templates[i] = np.nanmedian(wfs[rec.first_index:rec.last_index + 1], axis=0)\n")],
+  "block-wise gather in extract_wfs_array, one sorted search for all chunk bounds, empty chunks not dispatched; templates stay NaN-aware"),
+ ("C15f-vectorised-interp-isolated-bad-channel-nan", [(VO, "    weights /= gp.sum(weights, axis=1, keepdims=True)\n",
+                                                       "    wsum = gp.sum(weights, axis=1, keepdims=True)\n    weights /= gp.where(wsum > 0, wsum, 1)  # a bad channel without usable neighbour keeps a row of zeros\n")],
+  "interpolate_bad_channels builds one weight matrix for all bad channels and applies a single matrix product; a row without donors is divided by 1 and stays zeros"),
+ ("C17f-closed-form-window-bounds-short-signal", [(UT, "        first = np.arange(0, self.ns - self.overlap, self.nswin - self.overlap)\n",
+                                                   "        first = np.arange(0, max(self.ns - self.overlap, 1), self.nswin - self.overlap)\n")],
+  "WindowGenerator computes its window bounds once as two vectors; there is always a first window (a signal no longer than the overlap gets one clipped window)"),
 ]
 
 if __name__ == "__main__":
